@@ -245,3 +245,63 @@ class World:
 
 
 ERRORS = (core.Unsupported, KeyError, TypeError, AttributeError, IndexError, RecursionError, ZeroDivisionError)
+
+
+class TimeWorld:
+    """instance stubs of pendulum.Time (class part: the analysed time.py); DateTime.EPOCH is a value of the wall-clock world in a
+    zone without transition, Duration / AbsoluteDuration record their arguments"""
+
+    def __init__(self, m: core.Mod):
+        self.m = m
+        self.meths = m.methods("Time")
+        self.props = {k for k, f in self.meths.items() if any(core.dotted(d) == "property" for d in f.decorator_list)}
+        self.ctor = ClassStub(_new=self._construct, _isa=lambda v: isinstance(v, Obj) and "_tod" in vars(v))
+        dm = core.pmod("datetime")
+        self.dtw = World(dm, "DateTime", extra=core.pmod("date").methods("Date"), base_offset=_dt.timedelta(0))
+        consts: dict[str, Any] = {}
+        for st in m.tree.body:
+            if isinstance(st, ast.ImportFrom) and st.module == "pendulum.constants":
+                for a in st.names:
+                    try:
+                        consts[a.asname or a.name] = core.const("constants", a.name)
+                    except Exception:       # noqa: BLE001
+                        pass
+
+        def dur(kind):
+            def mk(*a, **k):
+                if a or set(k) - {"microseconds", "seconds"}:
+                    raise core.Unsupported(f"{kind}{a}{k}")
+                us = k.get("microseconds", 0) + k.get("seconds", 0) * 10**6
+                return Stub(_kind=kind, _us=us, total_seconds=lambda: (abs(us) if kind == "AbsoluteDuration" else us) / 10**6,
+                            in_seconds=lambda: int((abs(us) if kind == "AbsoluteDuration" else us) / 10**6))
+            return ClassStub(_new=mk, _isa=lambda v: isinstance(v, Stub) and getattr(v, "_kind", None) in (("Duration", "AbsoluteDuration") if kind == "Duration" else (kind,)))
+        self.glob: dict[str, Any] = {st.name: st for st in m.top() if isinstance(st, ast.FunctionDef)}
+        self.glob["$globals"] = {**consts, "Time": self.ctor, "time": _dt.time, "timedelta": _dt.timedelta, "datetime": Stub(time=_dt.time, timedelta=_dt.timedelta),
+                                 "Duration": dur("Duration"), "AbsoluteDuration": dur("AbsoluteDuration"), "NotImplemented": NotImplemented, "TypeError": TypeError,
+                                 "DateTime": Stub(EPOCH=self._epoch()), "pendulum": Stub(Duration=dur("Duration")), "UTC": _dt.timezone.utc}
+
+    def _epoch(self) -> Obj:
+        e = self.dtw.datetime(_dt.datetime(1970, 1, 1), 0)
+        return self._with_time(e)
+
+    def _with_time(self, v: Obj) -> Obj:
+        """DateTime values of this world answer time() with a Time stub and keep doing so through at()/add()/subtract()"""
+        d = vars(v)
+        for name in ("at", "add", "subtract", "set", "replace"):
+            if name in d:
+                f = d[name]
+                d[name] = (lambda f_: lambda *a, **k: self._with_time(f_(*a, **k)))(f)
+        w = d["_wall"]
+        d["time"] = lambda: self.time(w.hour, w.minute, w.second, w.microsecond)
+        return v
+
+    def _construct(self, hour=0, minute=0, second=0, microsecond=0, tzinfo=None, fold=0):
+        return self.time(hour, minute, second, microsecond, tzinfo, fold)
+
+    def time(self, hour=0, minute=0, second=0, microsecond=0, tzinfo=None, fold=0) -> Obj:
+        t = _dt.time(hour, minute, second, microsecond)
+        return Obj(_methods=self.meths, _props=self.props, _ctor=self.ctor, _natives={}, _tod=t, _eqkey=(t,),
+                   hour=hour, minute=minute, second=second, microsecond=microsecond, tzinfo=tzinfo, fold=fold)
+
+    def call(self, recv, name: str, args: list[Any], kws: dict[str, Any] | None = None):
+        return minieval.call(self.meths[name], [recv] + args, kws or {}, self.glob)
